@@ -307,6 +307,7 @@ impl Header {
         let mut int_redefined: Vec<bool> = vec![];
         let mut int_untyped_fb: Vec<Option<i64>> = vec![];
         let mut int_unsigned: Vec<bool> = vec![];
+        let mut int_is_char: Vec<bool> = vec![];
         let mut f_names: Vec<String> = vec![];
         let mut f_prec: Vec<(bool, bool, bool)> = vec![];
         let mut s_names: Vec<String> = vec![];
@@ -322,7 +323,13 @@ impl Header {
                     let v = eval(e, &int_vals).expect("normalised");
                     let u = eval_untyped(e, &int_untyped);
                     features(e, &mut info.features);
-                    info.kind = if matches!(e, IExpr::Chr(_)) { "char" } else { "int" };
+                    // a lone character constant, or just another name for one, is a character
+                    let alias_of_char = match e {
+                        IExpr::Ref(i) if !int_is_char.is_empty() => int_is_char[(*i as usize * int_is_char.len()) >> 16],
+                        _ => false,
+                    };
+                    info.kind = if matches!(e, IExpr::Chr(_)) || alias_of_char { "char" } else { "int" };
+                    int_is_char.push(info.kind == "char");
                     info.model = Some(v);
                     info.untyped = u;
                     let ufb = eval_untyped(e, &int_untyped_fb);
